@@ -1,9 +1,235 @@
-"""LIFT-C engine driver (IR -> C -> CBMC)."""
+"""LIFT-C engine driver: real C++ functions -> LLVM IR (clang-14 -O1) -> C (ir2c) -> CBMC.
+Per unit: a shim (.cpp, extern "C" noinline entry points into the real headers/sources) and a driver (.c) with one
+function per harness. Every harness is decided by CBMC (unwinding assertions, pointer/bounds/overflow checks), has a
+-DWITNESS twin that must report its final assert(0) reachable, the translation is validated differentially (generated C
+vs the real C++ on pseudo-random inputs) and counter-examples are replayed on the real C++ build."""
+import hashlib, json, os, re, subprocess, sys, time
+from concurrent.futures import ThreadPoolExecutor
+import build
+
+LIFT = os.path.join(build.VERIF, "engine", "lift")
+HDIR = os.path.join(build.VERIF, "harness", "lift")
+CBMC_FLAGS = ["--unwinding-assertions", "--pointer-check", "--bounds-check", "--signed-overflow-check", "--undefined-shift-check",
+              "--div-by-zero-check", "--pointer-overflow-check", "--drop-unused-functions", "--object-bits", "12", "--no-malloc-may-fail",
+              "--json-ui"]
+CXXFLAGS = ["-std=c++17", "-O1", "-DNDEBUG", "-DEIGEN_DONT_VECTORIZE", "-DNANO_HAS_FROM_CHARS_FLOAT", "-D" + build.GUARD,
+            "-ffp-contract=off", "-fno-vectorize", "-fno-slp-vectorize", "-fno-unroll-loops", "-fno-access-control", "-w"]
+
+
+def sh(cmd, **kw):
+    return build.sh(cmd, **kw)
+
+
+def prepare(unit):
+    """returns dict with paths: gen_c, gen_h, drv, exe_gen, exe_real; rebuilt from /repo on every call (keyed cache)"""
+    build.build_tools()
+    build.gen_version_h()
+    name = unit["name"]
+    wd = os.path.join(build.CACHE, "lift", name)
+    os.makedirs(wd, exist_ok=True)
+    with build.Lock("lift_" + name):
+        shim = os.path.join(HDIR, unit["shim"])
+        drv = os.path.join(HDIR, unit["driver"])
+        td = build.tools_dir()
+        ll = os.path.join(wd, "shim.ll")
+        gen_c = os.path.join(wd, "shim.c")
+        inc = build.inc_flags() + ["-I" + HDIR]
+        # 1. IR of the shim (+ optional library TUs)
+        bcs = []
+        srcs = [shim] + [os.path.join(build.REPO, s) for s in unit.get("lib_sources", [])]
+        for i, s in enumerate(srcs):
+            bc = os.path.join(wd, "u%d.bc" % i)
+            sh([build.CLANG] + CXXFLAGS + inc + ["-emit-llvm", "-c", s, "-o", bc, "-MD", "-MF", bc + ".d"])
+            bcs.append(bc)
+        roots = unit["roots"]
+        if len(bcs) > 1:
+            sh(["llvm-link-14"] + bcs + ["-o", os.path.join(wd, "linked.bc")])
+            sh([build.OPT, "-passes=internalize,default<O1>", "-internalize-public-api-list=" + ",".join(roots),
+                os.path.join(wd, "linked.bc"), "-S", "-o", ll])
+        else:
+            sh(["llvm-dis-14", bcs[0], "-o", ll])
+        # 2. IR -> C
+        cmd = [os.path.join(td, "ir2c"), ll, gen_c] + roots
+        for s in unit.get("stubs", []):
+            cmd += ["--stub", s]
+        r = subprocess.run(cmd, capture_output=True, text=True)
+        if r.returncode != 0:
+            raise RuntimeError("ir2c failed for %s:\n%s" % (name, r.stderr[-3000:]))
+        ir2c_log = r.stderr
+        for h in ("ir2c_rt.h", "lift_drv.h"):
+            open(os.path.join(wd, h), "w").write(open(os.path.join(LIFT, h)).read())
+        # 3. native builds for validation / replay
+        exe_gen = os.path.join(wd, "drv_gen")
+        exe_real = os.path.join(wd, "drv_real")
+        sh(["gcc", "-O1", "-w", "-fwrapv", "-fno-strict-aliasing", "-DNATIVE", "-DUSE_GEN", "-I" + wd, "-I" + HDIR, drv, "-o", exe_gen, "-lm"])
+        shim_o = os.path.join(wd, "shim_real.o")
+        sh(["g++", "-std=c++17", "-O1", "-DNDEBUG", "-DNANO_HAS_FROM_CHARS_FLOAT", "-D" + build.GUARD, "-fno-access-control", "-w"] + inc + ["-c", shim, "-o", shim_o])
+        drv_o = os.path.join(wd, "drv_real.o")
+        sh(["gcc", "-O1", "-w", "-DNATIVE", "-I" + wd, "-I" + HDIR, "-c", drv, "-o", drv_o])
+        extra = []
+        for s in unit.get("lib_sources", []):
+            o = os.path.join(wd, os.path.basename(s) + ".real.o")
+            sh(["g++", "-std=c++17", "-O1", "-DNDEBUG", "-DNANO_HAS_FROM_CHARS_FLOAT", "-w"] + inc + ["-c", os.path.join(build.REPO, s), "-o", o])
+            extra.append(o)
+        sh(["g++", drv_o, shim_o] + extra + ["-o", exe_real, "-lm", "-lpthread"])
+    funcs = re.findall(r"translated|extern/stub: (\S+)", ir2c_log)
+    return {"wd": wd, "gen_c": gen_c, "drv": drv, "exe_gen": exe_gen, "exe_real": exe_real, "ir2c_log": ir2c_log.strip().splitlines()}
+
+
+def validate(prep, seed):
+    env = dict(os.environ, VERIF_SEED=str(seed))
+    a = subprocess.run([prep["exe_gen"]], capture_output=True, text=True, env=env, timeout=600)
+    b = subprocess.run([prep["exe_real"]], capture_output=True, text=True, env=env, timeout=600)
+    la = [l for l in a.stdout.splitlines() if l.startswith("OBS")]
+    lb = [l for l in b.stdout.splitlines() if l.startswith("OBS")]
+    diff = None
+    if la != lb:
+        for i, (x, y) in enumerate(zip(la, lb)):
+            if x != y:
+                diff = {"line": i, "generated": x, "real": y}
+                break
+        if diff is None:
+            diff = {"len_generated": len(la), "len_real": len(lb)}
+    viol = [l for l in b.stdout.splitlines() if l.startswith("CONFIRMED")]
+    return {"agree": la == lb, "observations": len(la), "first_difference": diff, "native_violations_on_random_inputs": len(viol),
+            "native_violation_samples": viol[:3]}
+
+
+def run_cbmc(prep, func, unwind, witness, timeout, extra=()):
+    cmd = ["cbmc", prep["drv"], "-DUSE_GEN", "-I", prep["wd"], "-I", HDIR, "--function", func, "--unwind", str(unwind)] + CBMC_FLAGS + list(extra)
+    if witness:
+        cmd.insert(2, "-DWITNESS")
+    t0 = time.time()
+    try:
+        # address-space limit (24 GB) so that a runaway SAT instance cannot take the machine down
+        p = subprocess.run(["bash", "-c", "ulimit -v 25165824; exec \"$@\"", "x"] + cmd, capture_output=True, text=True, timeout=timeout)
+        out = p.stdout
+        rc = p.returncode
+    except subprocess.TimeoutExpired:
+        return {"status": "timeout", "wall_s": round(time.time() - t0, 1), "props": [], "cmd": " ".join(cmd)}
+    wall = round(time.time() - t0, 1)
+    try:
+        js = json.loads(out)
+    except Exception:
+        return {"status": "error", "wall_s": wall, "props": [], "cmd": " ".join(cmd), "tail": (out[-600:] + p.stderr[-600:])}
+    props, verdict, msgs = [], None, []
+    for item in js:
+        if "result" in item:
+            props = item["result"]
+        if "cProverStatus" in item:
+            verdict = item["cProverStatus"]
+        if item.get("messageType") == "ERROR":
+            msgs.append(item.get("messageText", "")[:300])
+    return {"status": verdict or "error", "wall_s": wall, "props": props, "cmd": " ".join(cmd), "errors": msgs, "rc": rc}
+
+
+def trace_values(prep, func, unwind, prop, timeout):
+    """re-run for one failing property with a trace; returns {input name: value} (first assignment to each harness-local name)"""
+    cmd = ["cbmc", prep["drv"], "-DUSE_GEN", "-I", prep["wd"], "-I", HDIR, "--function", func, "--unwind", str(unwind)] + CBMC_FLAGS + ["--property", prop, "--trace"]
+    try:
+        p = subprocess.run(cmd, capture_output=True, text=True, timeout=timeout)
+        js = json.loads(p.stdout)
+    except Exception as e:
+        return {}
+    vals = {}
+    for item in js:
+        for r in item.get("result", []):
+            for st in r.get("trace", []):
+                if st.get("stepType") != "assignment" or st.get("hidden"):
+                    continue
+                fn = st.get("sourceLocation", {}).get("function")
+                if fn != func:
+                    continue
+                lhs = st.get("lhs", "")
+                v = st.get("value", {})
+                data = v.get("data")
+                if data is None or lhs in vals:
+                    continue
+                if v.get("name") in ("integer", "float", "boolean"):
+                    vals[lhs] = data.replace("f", "") if v.get("name") == "float" else data
+    return vals
 
 
 def run_lift_unit(pid, unit, tier, seed, outdir):
-    raise RuntimeError("LIFT-C not built yet")
+    t0 = time.time()
+    prep = prepare(unit)
+    val = validate(prep, seed)
+    harnesses = unit.get(tier) or unit.get("quick")
+    to = unit.get("timeout", {}).get(tier, 240 if tier == "quick" else 1500)
+
+    def one(h):
+        main = run_cbmc(prep, h["func"], h["unwind"], False, to, h.get("flags", ()))
+        wit = run_cbmc(prep, h["func"], h["unwind"], True, to, h.get("flags", ()))
+        return h, main, wit
+
+    with ThreadPoolExecutor(min(len(harnesses), 8) or 1) as ex:
+        results = list(ex.map(one, harnesses))
+
+    labels, violations, samples, summ = {}, [], [], []
+    obligations = discharged = inconclusive = queries = 0
+    complete = True
+    for h, main, wit in results:
+        queries += 2
+        nprops = len(main["props"])
+        fails = [p for p in main["props"] if p.get("status") == "FAILURE"]
+        succ = [p for p in main["props"] if p.get("status") == "SUCCESS"]
+        wit_reach = any(p.get("status") == "FAILURE" and "WITNESS" in p.get("description", "") for p in wit["props"])
+        # the witness twin must fail ONLY on the reachability assert (otherwise the harness itself is broken)
+        verdict_ok = main["status"] in ("success", "failure") and wit["status"] in ("failure",) and wit_reach
+        user = [p for p in main["props"] if ".assertion." in p.get("property", "") and "unwind" not in p.get("property", "")]
+        if not verdict_ok:
+            complete = False
+            inconclusive += max(1, len(user))
+            labels["inconclusive: %s (%s / witness %s)" % (h["func"], main["status"], wit["status"] if not wit_reach else "ok")] = {"checked": 1, "discharged": 0, "violated": 0, "unknown": 1}
+        else:
+            for p in main["props"]:
+                d = p.get("description", "")
+                isuser = p in user
+                key = "%s: %s" % (h["func"], d) if isuser else "%s: [built-in] %s" % (h["func"], re.sub(r"\s+", " ", d)[:60])
+                e = labels.setdefault(key, {"checked": 0, "discharged": 0, "violated": 0, "unknown": 0})
+                e["checked"] += 1
+                obligations += 1
+                if p.get("status") == "SUCCESS":
+                    e["discharged"] += 1
+                    discharged += 1
+                elif p.get("status") == "FAILURE":
+                    e["violated"] += 1
+            for p in fails[:2]:
+                vals = trace_values(prep, h["func"], h["unwind"], p["property"], to)
+                vf = os.path.join(outdir, "%s.%s.values" % (unit["name"], h["func"]))
+                open(vf, "w").write("".join("%s %s\n" % kv for kv in vals.items()))
+                rp = subprocess.run([prep["exe_real"], h["func"], vf], capture_output=True, text=True, timeout=300)
+                conf = [l for l in rp.stdout.splitlines() if l.startswith("CONFIRMED")]
+                builtin = p not in user
+                violations.append({"label": "%s: %s" % (h["func"], p.get("description", "")), "harness": h["func"], "property_id": p.get("property"),
+                                   "values": vals, "confirmed": bool(conf), "replay_output": conf[:3] + [l for l in rp.stdout.splitlines() if "LIFT-SUMMARY" in l],
+                                   "note": ("built-in check (pointer/overflow): not reproducible natively, triaged by reading" if builtin else ""),
+                                   "unit": unit["name"]})
+        samples.append({"unit": unit["name"], "harness": h["func"], "what": h.get("desc", ""), "unwind": h["unwind"], "cbmc_status": main["status"],
+                        "properties_checked": nprops, "properties_failed": len(fails), "witness_reachable": wit_reach,
+                        "example_properties": [p.get("description", "")[:100] for p in user[:4]]})
+        summ.append({"harness": h["func"], "status": main["status"], "witness": wit["status"], "witness_reachable": wit_reach, "props": nprops,
+                     "failed": len(fails), "wall_s": main["wall_s"], "witness_wall_s": wit["wall_s"], "errors": (main.get("errors") or [])[:2], "tail": main.get("tail", "")[:300]})
+    internal = []
+    if not val["agree"]:
+        internal.append("translation validation failed: %s" % json.dumps(val["first_difference"]))
+    res = {"unit": unit["name"], "engine": "LIFT-C", "obligations": obligations, "discharged": discharged, "inconclusive": inconclusive, "queries": queries,
+           "solver_s": round(sum(s["wall_s"] + s["witness_wall_s"] for s in summ), 1), "complete": complete and not internal, "samples": samples,
+           "labels": labels, "violations": violations, "encoded": unit.get("encoded", []) + ["IR functions: " + "; ".join(prep["ir2c_log"][:12])],
+           "summary": {"harnesses": summ, "translation_validation": val, "wall_s": round(time.time() - t0, 1)}}
+    if internal:
+        raise RuntimeError("; ".join(internal))
+    return res
 
 
 def replay(pid, unit, v, path):
-    return 2
+    prep = prepare(unit)
+    vf = os.path.join(prep["wd"], "replay.values")
+    open(vf, "w").write("".join("%s %s\n" % kv for kv in v.get("values", {}).items()))
+    rp = subprocess.run([prep["exe_real"], v.get("harness", ""), vf], capture_output=True, text=True, timeout=300)
+    print(rp.stdout[-1500:])
+    if any(l.startswith("CONFIRMED") for l in rp.stdout.splitlines()):
+        print("VIOLATION property=%s replay=%s" % (pid, path))
+        return 1
+    print("replay: no violation reproduced on the current tree")
+    return 0
